@@ -9,9 +9,8 @@
    and, on the specification side, the truth-table semantics [leval] of policies over the
    SAME [assets] record the satisfaction table (SatSpec.v) is written over.
 
-   NOT modelled: Ctx::check_local_validity behind within_resource_limits (script size, op
-   count, witness size limits, "no satisfaction at all": the C09/C12 area). Its verdict is an
-   INPUT bit [rl] of [lift]; the theorems hold for either value of the bit. *)
+   The verdict of within_resource_limits is a parameter [rl] of [lift] here (the theorems hold for
+   either value); Ms/LiftLimits.v computes it from the fragment and its context ([lift_ctx]). *)
 From Verif Require Export Ast TypeCheck SatSpec.
 
 Inductive lpolicy :=
